@@ -123,8 +123,9 @@ func concretize(r *rand.Rand, t cty.Type) cty.Type {
 		return cty.Tuple(n)
 	case t.IsObjectType():
 		atys := map[string]cty.Type{}
-		for k, v := range t.AttributeTypes() {
-			atys[k] = concretize(r, v)
+		src := t.AttributeTypes()
+		for _, k := range sortedKeys(src) { // sorted: every random draw must be a function of the seed
+			atys[k] = concretize(r, src[k])
 		}
 		return cty.Object(atys)
 	}
@@ -259,8 +260,9 @@ func genValUnmarked(r *rand.Rand, t cty.Type, depth int, o ValOpts) cty.Value {
 		return cty.TupleVal(vs)
 	case t.IsObjectType():
 		vs := map[string]cty.Value{}
-		for k, at := range t.AttributeTypes() {
-			vs[k] = genVal(r, at, depth-1, o)
+		atys := t.AttributeTypes()
+		for _, k := range sortedKeys(atys) { // sorted: every random draw must be a function of the seed
+			vs[k] = genVal(r, atys[k], depth-1, o)
 		}
 		return cty.ObjectVal(vs)
 	}
